@@ -8,7 +8,7 @@ from vlib import core, dom
 
 ID = "C12"
 GEN = ["gas", "oil"]
-PROPS = ["C12_blackoil.v", "C12_spivey.v"]
+PROPS = ["C12_blackoil.v", "C12_spivey.v", "C12_viscosity.v"]
 
 
 def run(ctx):
@@ -74,8 +74,7 @@ def run(ctx):
     ctx.cov.update(evaluations=ev, distinct_nontrivial=n,
                    rule="oils from the box T 80..350, API 12..55, gas gravity 0.56..1.3, GOR 20..2500 with p_b > 50 (incl. box corners); "
                         "pressures 15 psia..2.5 p_b on a grid plus p_b and its two float neighbours")
-    ctx.validated_only += ["positivity of viscosity and viscosity falling below the bubble point: checked on the sampled box only "
-                           "(Bo falling above p_b and c_o > 0 are proved over the whole box in C12_spivey.v)",
+    ctx.validated_only += [
                            "behaviour decided by float rounding exactly at p_b (exercised with nextafter neighbours)"]
     ctx.samples.append(dict(T=T, api=api, gg=gg, Rsi=rsi, pb=pb))
 
